@@ -226,9 +226,7 @@ func (c *xc) xexpr(e ast.Expression, where string) *ir.Node {
 		return ir.N(ir.Assign, v.Operator+"=", c.xexpr(v.Left, where+"/cassign.left"), c.xexpr(v.Value, where+"/cassign.value"))
 	case *ast.CallExpression:
 		n := ir.N(ir.Call, "", c.xexpr(v.Function, where+"/call.fn"))
-		if v.Arguments == nil {
-			fail("%s: call with nil argument list", where)
-		}
+		// a nil list is an empty list (nothing dereferences it)
 		for i, a := range v.Arguments {
 			n.Kids = append(n.Kids, c.xexpr(a, fmt.Sprintf("%s/call.arg[%d]", where, i)))
 		}
@@ -250,9 +248,7 @@ func (c *xc) xexpr(e ast.Expression, where string) *ir.Node {
 		return ir.N(ir.Member, id.Value, c.xexpr(v.Object, where+"/member.obj"))
 	case *ast.ArrayLiteral:
 		n := ir.N(ir.Array, "")
-		if v.Elements == nil {
-			fail("%s: array with nil element list", where)
-		}
+		// a nil list is an empty list
 		for i, a := range v.Elements {
 			n.Kids = append(n.Kids, c.xexpr(a, fmt.Sprintf("%s/array[%d]", where, i)))
 		}
